@@ -151,6 +151,17 @@ def run_case(case, ctx):
                     labels.add("unnamed-automatic")
                 idx = no_duplicates("insert_style")
                 part, cont = predicted(family, named, automatic, default)
+                # an insertion touches one place only: every style of another container, and every style of another
+                # family/name of the same container, is still there and unchanged
+                for kk, fps in before.items():
+                    if kk[4] is None and kk[2] != "default-style":
+                        continue
+                    same_slot = (kk[0], kk[1]) == (part, cont) and (kk[3] == family or not kk[3]) and (kk[4] == name or default or not named)
+                    if same_slot or fp in fps:
+                        continue
+                    ctx.check(idx.get(kk) == fps, ("C13", "insert_style", "other-style-touched"),
+                              f"inserting {family}/{name!r} (mode {op['mode']}, documented place {part}.xml office:{cont}) changed the style {kk}: "
+                              f"{fps} -> {idx.get(kk)}", case)
                 found = [(kk, fps) for kk, fps in idx.items() if fp in fps]
                 ctx.check(len(found) == 1, ("C13", "insert_style", "not-inserted-once"),
                           f"style {fp} ({family}, mode {op['mode']}) found {len(found)} times", case)
@@ -179,6 +190,18 @@ def run_case(case, ctx):
                 ctx.check(got is not None and got.get_attribute_string("style:class") == fp, ("C13", "get_style", "not-found-again", family),
                           f"insert_style({family}, mode {op['mode']}) returned {ret!r} but get_style({family!r}, {ret!r}) gives "
                           f"{None if got is None else got.serialize()[:120]}", case)
+                # listings: the family given as str or as bytes (both accepted) list the same styles, the new one included
+                with ctx.guard(("C13", "get_styles", "exception", family), case):
+                    for auto_flag in (False, True):
+                        names_s = [(x.tag, x.name) for x in doc.get_styles(family, automatic=auto_flag)]
+                        names_b = [(x.tag, x.name) for x in doc.get_styles(family.encode(), automatic=auto_flag)]
+                        ctx.check(names_s == names_b, ("C13", "get_styles", "spelling-differs", family),
+                                  f"get_styles({family!r}, automatic={auto_flag}) lists {len(names_s)} styles, get_styles({family.encode()!r}, ...) lists "
+                                  f"{len(names_b)}: only str {sorted(set(names_s) - set(names_b))[:5]}", case)
+                    if not default:
+                        listed = [x.name for x in doc.get_styles(family)]
+                        ctx.check(ret in listed, ("C13", "get_styles", "inserted-not-listed", family),
+                                  f"get_styles({family!r}) does not list the style just inserted as {ret!r} (mode {op['mode']})", case)
                 inserted = [i for i in inserted if not (i[0] == family and i[1] == ret and i[3] == default and
                                                         predicted(i[0], True, i[4], i[3]) == (part, cont))]
                 inserted.append((family, ret, fp, default, automatic))
